@@ -29,6 +29,8 @@ from vpbt.oracles.bitmodel import (ModelEOF, ReadModel, WriteModel, bits_to_int,
 ID = "C20"
 LEVEL = "exploration"
 RULE = (
+    "rewind: exhaustive -- every prefix of 1-7 bits, seek back to every bit of that unfinished byte, every overwrite that stays in "
+    "the byte: the file must hold zeros + the new bits (documented: seeking to a byte clears the bits already set in it). "
     "machine: a Hypothesis RuleBasedStateMachine (and, for volume, the same operation grammar driven by "
     "random.Random seeded from the shard seed) draws up to 30 (thorough 50) writer operations "
     "(write_bit/nbits/uint_lit/bytes/bitarray/uint/sint with in-range, maximal, too-large, negative and "
@@ -1224,6 +1226,7 @@ def shards(tier):
     out = [("exh", k, 32) for k in range(32)]
     out += [("machine", k, 16) for k in range(16)]
     out += [("len", k, 4) for k in range(4)]
+    out += [("rewind", 0, 1)]
     return out
 
 
@@ -1236,8 +1239,63 @@ def _mods():
     return (BitstreamReader, D, State, UnexpectedEndOfStream)
 
 
+def rewind_one(first, a, k, n, v, lead, col):
+    """Writer only: `lead` whole bytes, then `first` bits of value a, seek back to bit k of that unfinished byte, write n
+    bits of value v, flush. Documented: "Seeking to a given byte will overwrite any bits already set in that byte to 0",
+    so the byte must read k zero bits, the n new bits, zeros; tell() must follow."""
+    from io import BytesIO
+
+    from vc2_conformance.bitstream.io import BitstreamReader, BitstreamWriter
+
+    f = BytesIO()
+    w = BitstreamWriter(f)
+    for i in range(lead):
+        w.write_nbits(8, 0xA5)
+    w.write_nbits(first, a)
+    w.seek(lead, 7 - k)
+    data = {"kind": "rewind", "first": first, "a": a, "k": k, "n": n, "v": v, "lead": lead}
+    if w.tell() != (lead, 7 - k):
+        col.fail("writer-seek-tell", data, "tell()=%r after seek(%d, %d)" % (w.tell(), lead, 7 - k))
+        return
+    w.write_nbits(n, v)
+    end = (lead + 1, 7) if k + n == 8 else (lead, 7 - (k + n))
+    if w.tell() != end:
+        col.fail("writer-seek-tell", data, "tell()=%r after seek(%d, %d) and writing %d bits, expected %r" % (w.tell(), lead, 7 - k, n, end))
+    w.flush()
+    want = bytes([0xA5] * lead + [(v << (8 - k - n)) & 0xFF])
+    got = f.getvalue()
+    if got != want:
+        col.fail("writer-rewind-in-byte", data, "wrote %d bits (%r), seek back to bit %d of the unfinished byte, wrote %d bits (%r): file is "
+                 "%s, documented semantics give %s" % (first, a, k, n, v, got.hex(), want.hex()))
+        return
+    r = BitstreamReader(BytesIO(got))
+    r.seek(lead, 7 - k)
+    back = r.read_nbits(n)
+    if back != v:
+        col.fail("writer-rewind-in-byte", data, "wrote %r at (%d, %d) (previously other bits) but read back %r" % (v, lead, 7 - k, back))
+
+
+def run_rewind(ctx):
+    """Exhaustive: every prefix of 1..7 bits, every seek-back position inside it, every overwrite that stays in the byte."""
+    col = ctx.col
+    for lead in (0, 2):
+        for first in range(1, 8):
+            for a in range(1 << first):
+                for k in range(0, first + 1):
+                    for n in range(1, 8 - k + 1):
+                        for v in range(1 << n):
+                            rewind_one(first, a, k, n, v, lead, col)
+                            # non-trivial: some bit that was 1 before the seek has to read 0 afterwards
+                            old_byte = (a << (8 - first)) & 0xFF
+                            new_byte = (v << (8 - k - n)) & 0xFF
+                            col.case(key=("rewind", lead, first, a, k, n, v), nontrivial=(old_byte & ~new_byte) != 0,
+                                     labels=("part:rewind_in_byte",))
+
+
 def run_shard(spec, ctx):
     kind, k, n = spec
+    if kind == "rewind":
+        return run_rewind(ctx)
     if kind == "exh":
         run_exh(ctx, k, n, _mods())
     elif kind == "machine":
@@ -1261,5 +1319,7 @@ def replay(data, col):
         exh_one(_mods(), bytes.fromhex(data["file"]), int(data["pre"]), int(data["blen"]), int(data["prog"]), col)
     elif kind == "len":
         check_len(int(data["v"]), col, None)
+    elif kind == "rewind":
+        rewind_one(data["first"], data["a"], data["k"], data["n"], data["v"], data["lead"], col)
     else:
         raise ValueError("unknown replay kind %r" % (kind,))
